@@ -115,3 +115,138 @@ Example C06_ex_key : de_key 1 E_sl (KInt U8) (init_st [34;50;53;53;34;58]) = TOk
 Proof. exact ex_key_u8. Qed.
 Example C06_ex_map_key : from_input_typed E_sl (TMap (KInt U8) TUnit) [123;34;50;53;53;34;58;110;117;108;108;125] = TOk (DMap [(DInt 255, DUnit)]).
 Proof. exact ex_map_u8_255. Qed.
+
+(* ---- the clause 'from a Value' (Model/ValueDe.v; Proofs/ValueInt.v) and the Number accessors of the default representation (Proofs/NumberAcc.v) ---- *)
+Local Open Scope N_scope.
+From SJ Require Import Base.Bytes Base.Utf8 Base.FloatB Gen.Tables
+  Model.Read Model.Str Model.Num Model.NumF32 Model.Value Model.De Model.Ignore Model.Ty Model.NumberM Model.DeTyped Model.ValueDe
+  Spec.Syntax.
+From SJ Require Import Proofs.NumInt Proofs.GrammarNum Proofs.ApNumber Proofs.TypedInt.
+From Coq Require Import Lia ZifyBool ZifyNat ZifyN.
+From SJ Require Import Proofs.ValueInt.
+Theorem C06_value_owned : forall cf fx t v, arbitrary_precision cf = false ->
+  from_value_owned cf fx (TInt t) v = c06v_spec t v.
+Proof. exact ValueInt.C06_value_owned. Qed.
+Print Assumptions C06_value_owned.
+
+Theorem C06_value_ref : forall cf fx t v, arbitrary_precision cf = false ->
+  from_value_ref cf fx (TInt t) v = c06v_spec t v.
+Proof. exact ValueInt.C06_value_ref. Qed.
+Print Assumptions C06_value_ref.
+
+Theorem C06_value_ok_iff : forall cf fx t v d, arbitrary_precision cf = false ->
+  (from_value_owned cf fx (TInt t) v = VOk d <->
+   exists n z, v = VNum n /\ num_int n = Some z /\ Ty.in_range t z = true /\ d = DInt z).
+Proof. exact ValueInt.C06_value_ok_iff. Qed.
+Print Assumptions C06_value_ok_iff.
+
+Theorem C06_value_float_never : forall cf fx t f, arbitrary_precision cf = false ->
+  from_value_owned cf fx (TInt t) (VNum (NFloat f)) = VErr (Message MInvalidType) 0 0
+  /\ from_value_ref cf fx (TInt t) (VNum (NFloat f)) = VErr (Message MInvalidType) 0 0.
+Proof. exact ValueInt.C06_value_float_never. Qed.
+Print Assumptions C06_value_float_never.
+
+Theorem C06_value_parse : forall E fx t neg ds,
+  tm E = TEof -> arbitrary_precision (cf E) = false -> int_ok ds = true ->
+  let lit := int_lit neg ds in
+  let z := int_lit_val neg ds in
+  if fits_number z && negb (is_neg_zero neg ds)
+  then from_input E lit = Ok (VNum (num_of_int z)) /\
+       from_value_owned (cf E) fx (TInt t) (VNum (num_of_int z)) = (if Ty.in_range t z then VOk (DInt z) else verr MInvalidValue)
+  else forall v, from_input E lit = Ok v -> from_value_owned (cf E) fx (TInt t) v = verr MInvalidType.
+Proof. exact ValueInt.C06_value_parse. Qed.
+Print Assumptions C06_value_parse.
+
+Theorem C06_value_key_iff : forall cf b t key d,
+  de_value_key cf b (KInt t) key = VOk d <->
+  exists neg ds, int_ok ds = true /\ key = int_lit neg ds /\ d = DInt (int_lit_val neg ds) /\ key_accepts t neg ds = true.
+Proof. exact ValueInt.C06_value_key_iff. Qed.
+Print Assumptions C06_value_key_iff.
+
+Theorem C06_value_key_vs_text : forall fuel E cf b t neg ds rest off pk d x,
+  tm E = TEof -> int_ok ds = true ->
+  let lit := int_lit neg ds in
+  (de_value_key cf b (KInt t) lit = VOk x <->
+   de_key (S fuel) E (KInt t) (mkSt (34 :: lit ++ 34 :: rest) off pk d) = TOk (x, st_key_end lit rest off d)).
+Proof. exact ValueInt.C06_value_key_vs_text. Qed.
+Print Assumptions C06_value_key_vs_text.
+
+Theorem C06_value_map_key : forall cf fx t key,
+  from_value_owned cf fx (TMap (KInt t) TUnit) (VObj [(key, VNull)]) =
+    (let& kd := de_value_key cf false (KInt t) key in VOk (DMap [(kd, DUnit)]))
+  /\ from_value_ref cf fx (TMap (KInt t) TUnit) (VObj [(key, VNull)]) =
+    (let& kd := de_value_key cf true (KInt t) key in VOk (DMap [(kd, DUnit)])).
+Proof. exact ValueInt.C06_value_map_key. Qed.
+Print Assumptions C06_value_map_key.
+
+From Coq Require Import Reals Lra Lia ZifyBool ZifyNat ZifyN.
+From Flocq Require Import Core BinarySingleNaN.
+From SJ Require Import Base.Bytes Base.Utf8 Base.FloatB Gen.Tables
+  Model.Read Model.Str Model.Num Model.Value Model.De Model.Pointer Model.Ty Model.NumberM Model.DeTyped Model.ValueDe Spec.Syntax.
+From SJ Require Import Proofs.FloatDefault Proofs.NumInt Proofs.TypedInt Proofs.SerValue Proofs.PointerEq Proofs.ValueInt.
+From SJ Require Import Proofs.NumberAcc.
+Theorem C06_as_u64 : forall n v, num_wf n = true ->
+  (num_as_u64 n = Some v <-> num_int n = Some (Z.of_N v) /\ (Z.of_N v <= U64_MAX)%Z).
+Proof. exact NumberAcc.C20_as_u64_default. Qed.
+Print Assumptions C06_as_u64.
+
+Theorem C06_as_i64 : forall n v, num_wf n = true ->
+  (num_as_i64 n = Some v <-> num_int n = Some v /\ (I64_MIN <= v <= I64_MAX)%Z).
+Proof. exact NumberAcc.C20_as_i64_default. Qed.
+Print Assumptions C06_as_i64.
+
+Theorem C06_as_u128 : forall n v, num_wf n = true ->
+  (num_as_u128 n = Some v <-> num_int n = Some v /\ (0 <= v <= U64_MAX)%Z).
+Proof. exact NumberAcc.C20_as_u128_default. Qed.
+Print Assumptions C06_as_u128.
+
+Theorem C06_as_i128 : forall n v, num_wf n = true ->
+  (num_as_i128 n = Some v <-> num_int n = Some v /\ (I64_MIN <= v <= U64_MAX)%Z).
+Proof. exact NumberAcc.C20_as_i128_default. Qed.
+Print Assumptions C06_as_i128.
+
+Theorem C06_is_u64 : forall n, num_is_u64 n = is_some (num_as_u64 n).
+Proof. exact NumberAcc.C20_is_u64_default. Qed.
+Print Assumptions C06_is_u64.
+
+Theorem C06_is_i64 : forall n, num_is_i64 n = is_some (num_as_i64 n).
+Proof. exact NumberAcc.C20_is_i64_default. Qed.
+Print Assumptions C06_is_i64.
+
+Theorem C06_is_f64 : forall n, num_wf n = true ->
+  num_is_f64 n = negb (num_is_i64 n) && negb (num_is_u64 n)
+  /\ num_is_f64 n = negb (is_some (num_as_i128 n))
+  /\ (num_is_f64 n = true -> exists f, num_as_f64 n = Some f /\ n = NFloat f).
+Proof. exact NumberAcc.C20_is_f64_default. Qed.
+Print Assumptions C06_is_f64.
+
+Theorem C06_as_f64 : forall n, num_wf n = true ->
+  exists f, num_as_f64 n = Some f /\ is_finite f = true
+    /\ match num_int n with
+       | Some z => B2R f = RNE64 (IZR z)           (* `n as f64` *)
+       | None => n = NFloat f
+       end.
+Proof. exact NumberAcc.C20_as_f64_default. Qed.
+Print Assumptions C06_as_f64.
+
+Theorem C06_value_via_as_i128 : forall cf fx t n d, arbitrary_precision cf = false ->
+  (from_value_owned cf fx (TInt t) (VNum n) = VOk d <->
+   exists z, num_as_i128 n = Some z /\ Ty.in_range t z = true /\ d = DInt z).
+Proof. exact NumberAcc.C06_value_via_as_i128. Qed.
+Print Assumptions C06_value_via_as_i128.
+
+Theorem C06_accessors_parse : forall E neg ds,
+  tm E = TEof -> arbitrary_precision (cf E) = false -> int_ok ds = true ->
+  let lit := int_lit neg ds in
+  let z := int_lit_val neg ds in
+  if fits_number z && negb (is_neg_zero neg ds)
+  then exists n, from_input E lit = Ok (VNum n) /\ num_wf n = true
+         /\ num_as_i128 n = Some z
+         /\ num_as_u128 n = (if (0 <=? z)%Z then Some z else None)
+         /\ num_as_u64 n = (if (0 <=? z)%Z then Some (Z.to_N z) else None)
+         /\ num_as_i64 n = (if (z <=? I64_MAX)%Z then Some z else None)
+  else forall v, from_input E lit = Ok v ->
+         v = VNull \/ exists f, v = VNum (NFloat f).
+Proof. exact NumberAcc.C06_accessors_parse. Qed.
+Print Assumptions C06_accessors_parse.
+
